@@ -93,6 +93,22 @@ def gen(rng, tier):
         yield dict(family="long-" + op, group="%d-long" % gid, resvar=0, vars=[zero(0, prec=p, mode=md), x, y], ops=["SetPrec 0 %d" % p, "%s 0 1 2" % op], big=True)
         yield dict(family="long-" + op, group="%d-long" % gid, resvar=0, vars=[stale, x, y], ops=["SetPrec 0 %d" % p, "%s 0 1 2" % op], big=True)
         yield dict(family="long-" + op, group="%d-long" % gid, resvar=0, vars=[clone(stale), x, y], ops=["SetInf 0 0", "SetPrec 0 %d" % p, "%s 0 1 2" % op], big=True)
+    for _ in range(6 * n):
+        gid += 1
+        wx, wy = rng.choice([30, 31, 45, 64, 90]), rng.choice([30, 33, 40, 64, 120])
+        cx = int("".join("%019d" % rng.randrange(B // 10, B) for _ in range(wx)))
+        cy = int("".join("%019d" % rng.randrange(B // 10, B) for _ in range(wy)))
+        md = rng.randint(0, 5)
+        p = 19 * rng.choice([wx, wx + wy, 10])
+        x = fin(cx, rng.randint(-9, 9), neg=rng.randint(0, 1), prec=max(p, 19 * wx), mode=md)
+        y = fin(cy, rng.randint(-9, 9), neg=rng.randint(0, 1), prec=19 * wy)
+        op = rng.choice(["Mul", "Mul", "Quo", "Add"])
+        cap = rng.choice([6 * max(wx, wy) + 8, 4 * (wx + wy), 1000])
+        yield dict(family="long-alias-" + op, group="%d-la" % gid, resvar=0, vars=[zero(0, prec=x.prec, mode=md), x, y], ops=["%s 0 1 2" % op], big=True)
+        yield dict(family="long-alias-" + op, group="%d-la" % gid, resvar=0, vars=[clone(x, extracap=cap, stale=B - 1), y], ops=["%s 0 0 1" % op], big=True)
+        yield dict(family="long-alias-" + op, group="%d-la" % gid, resvar=0, vars=[clone(x, extracap=cap, stale=rng.randrange(B)), y], ops=["%s 0 0 1" % op], big=True)
+        if op in ("Mul", "Add"):
+            yield dict(family="long-alias-" + op, group="%d-la" % gid, resvar=0, vars=[clone(x, extracap=cap, stale=1), y], ops=["%s 0 1 0" % op], big=True)
     for _ in range(80 * n):
         gid += 1
         x, y, u = (common.rand_any(rng, 30, wide=False) if rng.randint(0, 6) == 0 else common.rand_fin(rng, 30, wide=False) for _ in range(3))
